@@ -12,7 +12,10 @@ From Coq Require Import List Arith ZArith Bool.
 From Verif Require Import c15.Lts.
 Import ListNotations.
 
-Definition item := (nat * Z)%type.       (* (node id the event went through, event id) *)
+(* (tag, event id): the tag is ghost information used by the theorems only -
+   for a send by node.emit / the replay goroutine it is the node id, for a send by
+   wildcardNode.emit it is the index of the Emit call *)
+Definition item := (nat * Z)%type.
 
 Inductive thr :=
 | TEmNew (j : nat)       (* bus.Emitter(type j.ty, [Stateful]) *)
@@ -213,10 +216,10 @@ Definition step_emit (st : state) (k : nat) : option (option label * state) :=
           | Some _ => None
           | None =>
               let st1 := set_wild st (mkWild None (S (rdrs w)) (wsinks w) (nsinks w)) in
-              let st2 := set_subs st1 (expect_all (subs st1) (wsinks w) (n, eev e) 0) in
+              let st2 := set_subs st1 (expect_all (subs st1) (wsinks w) (k, eev e) 0) in
               tau (go (EWSend n (wsinks w)) st2)
           end
-      | EWSend n (s :: r) => otau (option_map (go (EWSend n r)) (send st s (n, eev e)))
+      | EWSend n (s :: r) => otau (option_map (go (EWSend n r)) (send st s (k, eev e)))
       | EWSend n [] =>                                                  (* w.RUnlock() *)
           let w := wild st in
           tau (go (ERet 0) (set_wild st (mkWild (wpend w) (pred (rdrs w)) (wsinks w) (nsinks w))))
